@@ -102,6 +102,52 @@ def decl_trace(tid, typ, mn, mx, unit, charset, floats_as_float=False):
     return {"id": tid, "hdr": hdr, "ev": ev}, [v for _, v in raw]
 
 
+def free_decl_trace(tid, fmin, fmax, charset, family):
+    """a float declaration with arbitrary (off-lattice) bounds: judged by exact ranks only (no model agreement)"""
+    raw = []
+    for ch in charset:
+        try:
+            raw.append(("none", decode_one("float", fmin, fmax, ch)))
+        except Exception as ex:
+            raw.append((type(ex).__name__, None))
+    nums = [fmin, fmax] + [v for e, v in raw if e == "none" and isinstance(v, (int, float)) and v == v]
+    rk = dict(zip(nums, encode.ranks(nums)))
+    ev = []
+    for ch, (exc, v) in zip(charset, raw):
+        ok = exc == "none" and isinstance(v, (int, float)) and v == v
+        ev.append({"g": ord(ch), "exc": exc if exc != "none" or ok else "not-a-number", "isint": ok and type(v) is int,
+                   "isfloat": ok and type(v) is float, "vi": 0, "rk": rk[v] if ok else 0, "sc": 0})
+    hdr = {"kind": "decl", "typ": "float", "unit": 1, "mn": 0, "mx": 1, "rmin": rk[fmin], "rmax": rk[fmax], "free": family,
+           "fmin": repr(fmin), "fmax": repr(fmax)}
+    return {"id": tid, "hdr": hdr, "ev": ev}
+
+
+def gen_free_bounds(rng):
+    """tiny magnitudes, tiny widths next to multiples of 1e-10, huge ranges"""
+    c = rng.random()
+    if c < 0.35:
+        def tiny():
+            return rng.choice([1, -1]) * rng.randint(1, 9999) * 10.0 ** rng.randint(-16, -9) * rng.choice([1, 0.25, 0.75])
+        a, b = tiny(), tiny()
+        fam = "tiny-magnitude"
+        if rng.random() < 0.3:
+            a = rng.choice([0.0, a])
+    elif c < 0.75:
+        k = rng.choice([3 * 10 ** 9, 10 ** 9, 10 ** 10, rng.randint(1, 10 ** 11), rng.randint(1, 1000), 0])
+        x = k / 10 ** 10
+        a = x + rng.randint(-9, 9) * 1e-13 * rng.choice([1, 0.5])
+        b = x + rng.randint(-9, 9) * 1e-13 * rng.choice([1, 0.5])
+        fam = "tiny-width-near-a-grid-point"
+    else:
+        a = rng.choice([1e-8, -1e8, 0.0, 1e-8 * rng.randint(1, 99), -rng.random() * 1e8])
+        b = rng.choice([1e8, 1e8 * rng.random(), 123456789.123, 1e-8])
+        fam = "huge-range"
+    a, b = float(a), float(b)
+    if a > b:
+        a, b = b, a
+    return a, b, fam
+
+
 def seq_trace(tid, decls, dna):
     """a longer DNA: every position against the one-letter decode under the same declaration"""
     import jesse.helpers as jh
@@ -131,6 +177,8 @@ def seq_trace(tid, decls, dna):
 def bound_class(h):
     if h["kind"] == "seq":
         return "seq"
+    if h.get("free"):
+        return "float:%s" % h["free"]
     integral = h["mn"] % h["unit"] == 0 and h["mx"] % h["unit"] == 0
     if h["typ"] == "int":
         return "int:integral-bounds" if integral else "int:fractional-bounds"
@@ -291,9 +339,19 @@ def run(ctx):
         traces.append(t)
         decodes += len(charset)
         ctx.nontrivial.add(("decimal", typ, mn, mx))
+    # float declarations off every lattice: tiny magnitudes, tiny widths next to grid points, huge ranges
+    n_free = 0
+    for _ in range(ctx.pick(1500, 15000)):
+        a, b, fam = gen_free_bounds(rng)
+        tid += 1
+        traces.append(free_decl_trace(tid, a, b, charset, fam))
+        decodes += len(charset)
+        n_free += 1
+        ctx.nontrivial.add(("free", repr(a), repr(b)))
     n_decl = tid
     # longer DNAs
-    pool = [(t["hdr"]["typ"], bound(t["hdr"]["mn"], t["hdr"]["unit"]), bound(t["hdr"]["mx"], t["hdr"]["unit"])) for t in traces]
+    pool = [(t["hdr"]["typ"], bound(t["hdr"]["mn"], t["hdr"]["unit"]), bound(t["hdr"]["mx"], t["hdr"]["unit"])) for t in traces
+            if not t["hdr"].get("free")]
     for _ in range(ctx.pick(300, 4000)):
         L = rng.randint(2, 8)
         decls = [rng.choice(pool) for _ in range(L)]
@@ -313,7 +371,7 @@ def run(ctx):
         l, fails, ok_round, ok_clamp = v
         t = byid[i]
         cls = bound_class(t["hdr"])
-        if t["hdr"]["kind"] == "decl" and not fails:
+        if t["hdr"]["kind"] == "decl" and not fails and not t["hdr"].get("free"):
             if ok_round:
                 agree["round"] += 1
             if ok_clamp:
@@ -327,7 +385,8 @@ def run(ctx):
             ctx.violation("%s:%s" % (cls, verdict),
                           "trace %d (%s) rejected, first at event %d (letter %r): %s (all clauses: %s); declaration %s" % (
                               i, h["kind"], l, chr(t["ev"][l - 1]["g"]), verdict, fails,
-                              (h["typ"], bound(h["mn"], h["unit"]), bound(h["mx"], h["unit"])) if h["kind"] == "decl" else ""),
+                              (("float", h["fmin"], h["fmax"]) if h.get("free") else (h["typ"], bound(h["mn"], h["unit"]), bound(h["mx"], h["unit"])))
+                              if h["kind"] == "decl" else ""),
                           {"kind": h["kind"], "seq": seq_src.get(i), "hdr": h})
     if agree["neither"]:
         ctx.notes.append("%d declarations decode in range but not as the linear definition (neither int(round) nor its clamped "
@@ -394,7 +453,7 @@ def run(ctx):
     ctx.coverage.update({
         "traces_validated_against_impl": len(traces) + len(hp_traces),
         "decodes_checked": decodes, "grid_declarations": n_grid, "declaration_traces": n_decl,
-        "seq_traces": tid - n_decl, "rejected_traces": bad + hp_bad,
+        "seq_traces": tid - n_decl, "free_float_declarations": n_free, "rejected_traces": bad + hp_bad,
         "alphabet": {"length": len(charset), "first": ord(charset[0]), "last": ord(charset[-1])},
         "model_agreement": agree, "model_counterexample_fractional_int": model_cex,
         "hp_scenarios": len(scen), "hp_runs": len(plan),
@@ -421,7 +480,9 @@ def replay(ctx, rp):
         return
     charset = real_charset()
     h = p["hdr"]
-    if p["kind"] == "decl":
+    if p["kind"] == "decl" and h.get("free"):
+        t = free_decl_trace(1, float(h["fmin"]), float(h["fmax"]), charset, h["free"])
+    elif p["kind"] == "decl":
         t, vals = decl_trace(1, h["typ"], h["mn"], h["mx"], h["unit"], charset)
     else:
         t = seq_trace(1, [tuple(d) for d in p["seq"]["decls"]], p["seq"]["dna"])
